@@ -60,7 +60,8 @@ def tag_value(rng, t, canonical=True):
             vals = [rng.choice([0.5, -1.25, 3.0, 1e-05, 100.0]) for _ in range(rng.randint(1, 4))]
             return "f," + ",".join(repr(v) for v in vals)
         pool = rng.choice([[0, 1, 255], [0, 256, 65535], [70000, 2 ** 32 - 1], [-1, 127, -128],
-                           [-129, 32767], [-40000, 2 ** 31 - 1], [rng.randint(-300, 300) for _ in range(3)]])
+                           [-129, 32767], [-40000, 2 ** 31 - 1], [rng.randint(-300, 300) for _ in range(3)],
+                           [-1, 128], [-128, 128, 127], [-1, 32768], [-32768, 32768], [-1, 2 ** 31 - 1, 32768]])
         vals = [rng.choice(pool) for _ in range(rng.randint(1, 4))]
         return smallest_subtype(vals) + "," + ",".join(str(v) for v in vals)
     raise AssertionError(t)
